@@ -93,3 +93,32 @@ def run(prop, tier, seed, replay=None):
     v.cov["rule"] = "file-chunk cases enumerated by TLC; writer / server-behaviour / full-path cases from the parameter grids of Webseed.tla's actions"
     v.cov["cases_by_kind"] = kinds
     return v.finish()
+
+
+def full_path_probe(v, prop, tier, seed, cases=None):
+    """The full web-seed path of a running torrent, for C09: every block reserved for a fetch is released when it ends."""
+    if cases is None:
+        cases = [{"kind": "full", "layout": layout, "server": sv, "binding": "webseed"} for layout in ("single", "multi", "big") for sv in ("honest", "short-range", "overlong-body")]
+        for i, c in enumerate(cases):
+            c["id"] = 5000 + i
+    vh = vlib.build_harness()
+    wd = vlib.scratch("wsp-")
+    sf, rf = os.path.join(wd, "cases.ndjson"), os.path.join(wd, "res.ndjson")
+    with open(sf, "w") as f:
+        for c in cases:
+            f.write(json.dumps(c, separators=(",", ":")) + "\n")
+    out, err = vlib.run_harness(vh, ["webseed", "-in", sf, "-out", rf, "-parallel", "9", "-timeout", "120"], timeout=3600)
+    log(out.strip())
+    for line in open(rf):
+        res = json.loads(line)
+        c = cases[res["index"]]
+        if res.get("crash") or res.get("hang"):
+            continue   # C14's business
+        o = res["out"]
+        if o.get("note"):
+            raise Internal("web-seed probe case %s: %s" % (c["id"], o["note"]))
+        for vi in o.get("violations") or []:
+            if vi["key"] == "full-inflight-leak":
+                v.violation("inflight-leak:webseed", vi["what"], c)
+    v.cov["webseed_full_path"] = {"cases": len(cases), "rule": "running torrents fetching from a local web seed (3 layouts incl. 2 MiB pieces x 3 server behaviours): inFlight is zero once every fetch has ended"}
+    return len(cases)
